@@ -60,7 +60,7 @@ Proof.
   destruct (shut (w_mod w m)) as [r|] eqn:Es; cbn [fst].
   - assert (Hb : nwf (nw_bump now (nw (w_mod w m))) <= nwf (nw (w_mod w m)))
       by (destruct (nw (w_mod w m)) as [u|]; cbn [nw_bump nwf]; [destruct (u <=? now); cbn [nwf]|]; lia).
-    destruct r as [t|]; unfold Pot.pm, Pot.part; cbn [w_mod w_buf w_fes set_fes set_mod set_buf]; rewrite N.eqb_refl;
+    destruct r as [t|]; unfold Pot.pm, Pot.part; cbn [w_mod w_buf w_fes set_fes set_fin set_mod set_buf]; rewrite N.eqb_refl;
       cbn [bud ready timers nw shut rdw tmw stale shw Pot.wl]; rewrite ?wsum_add, wsum_flush, Es; cbn [shw wt]; lia.
   - unfold Pot.pm. cbn [w_mod w_buf w_fes set_buf set_fes Pot.wl]. rewrite wsum_flush. lia.
 Qed.
@@ -126,7 +126,7 @@ Definition IdleCb (i : N) (f : xs -> xs) : Prop := forall s, Idle i (x_w s) ->
 
 Lemma at_sim_start_idle k now i stage : IdleCb i (fun s => fst (at_sim_start k cfg0 now i stage s)).
 Proof.
-  intros s H. unfold at_sim_start. cbn [c_tasks cfg0]. unfold pick_start. cbn [c_start cfg0].
+  intros s H. unfold at_sim_start. change (c_spawn cfg0) with (@nil (bool * prog)). unfold pick_start. cbn [c_start cfg0].
   assert (E : forall n, nth n ([] : list prog) [] = []) by (intros [|n]; reflexivity).
   rewrite E. destruct (exec_idle k now i (CbStart stage) s H) as (I1 & I2 & _ & I4).
   destruct (stage =? 0); destruct (exec k now i (CbStart stage) [] [] s) as [s1 p]; cbn [fst snd] in *; subst p; cbn [catch fst x_w]; auto.
